@@ -91,7 +91,7 @@ def naming_schemas(tier):
     sch("parameter_name_keyword_and_its_escape", [base("Thing", edges=(("peer", "Thing", "type: Int, type_: Int!"),))])
     sch("parameter_names_like_locals", [base("Thing", edges=(("peer", "Thing", "contexts: Int, adapter: String, parameters: Int, resolve_info: Int, edge_name: String"),))])
     if tier == "quick": S = [s for s in S if s[0] in ("plain", "consecutive_capitals_type", "case_only_type_collision", "keyword_fields", "entrypoints_case_collision", "digit_in_type", "type_and_type_underscore", "feature_mix_parameters_of_every_type",
-                                                         "parameter_names_differing_by_case", "parameter_names_keywords")]
+                                                         "parameter_names_differing_by_case", "parameter_names_keywords", "parameter_names_like_locals")]
     return S
 
 FEATURE_SDL = """schema { query: RootQ }
